@@ -1,7 +1,7 @@
 #!/bin/bash
 # tools/seedbatch.sh <ID> <prop> [<prop>...] : copy an agent's output into seeded/_incoming and test both mutants
 ID=$1; shift
-mkdir -p /verif/seeded/_incoming/$ID && cp /work/mutout/$ID/*.diff /work/mutout/$ID/*.py /work/mutout/$ID/*.txt /verif/seeded/_incoming/$ID/ 2>/dev/null
+mkdir -p /verif/seeded/_incoming/$ID && cp ${MUTOUT:-/work/mutout}/$ID/*.diff ${MUTOUT:-/work/mutout}/$ID/*.py ${MUTOUT:-/work/mutout}/$ID/*.txt /verif/seeded/_incoming/$ID/ 2>/dev/null
 for k in 1 2; do
   echo "######## $ID mut$k"
   timeout 2400 /verif/tools/seedtest.sh /verif/seeded/_incoming/$ID/mut$k.diff /verif/seeded/_incoming/$ID/demo$k.py "$@" 2>&1 | grep -a -v "^Exception in\|^  \|^Traceback\|^engine_corr\|^KeyboardInterrupt\|^SystemExit\|^planlevel\|^    " | tail -${LINES_:-12}
